@@ -207,7 +207,11 @@ def build_call(case):
         kw.update(make_sis_rule(case['rule'], G))
     elif sim == 'Gillespie_simple_contagion':
         sp = case['spec']
-        H, J, node_w, edge_w, calls = specs.build_spec_graphs(sp, case.get('weight_form'), G, directed=G.is_directed())
+        sb, nb = case.get('spont_boost', 1.0), case.get('nbr_boost', 1.0)
+        H, J, node_w, edge_w, calls = specs.build_spec_graphs(sp, case.get('weight_form'), G, directed=G.is_directed(), spont_boost=sb, nbr_boost=nb)
+        if case.get('weight_form') == 'function' and (sb != 1.0 or nb != 1.0):
+            kw['spont_kwargs'] = {'boost': sb}
+            kw['nbr_kwargs'] = {'boost': nb}
         r = random.Random(case['seed'] + 17)
         sts = [specs._tup(s) for s in sp['statuses']]
         ic_idx = case.get('IC')
@@ -296,6 +300,9 @@ def random_sim_case(r, sim, nmax=14, tmaxes=None):
         case['return_idx'] = list(range(k))
         wf = r.choice([None, None, 'label', 'function'])
         case['weight_form'] = wf
+        if wf == 'function' and r.random() < 0.6:
+            case['spont_boost'] = r.choice([0.5, 1.5, 3.0])
+            case['nbr_boost'] = r.choice([0.4, 2.0])
         if wf:
             g = dict(case['graph'])
             g['ew'] = {'ew_': gen.weights(r, len(g['edges']), r.choice(['dyadic', 'nondyadic', 'wide']))}
